@@ -4,7 +4,13 @@ import (
 	"encoding/json"
 	"fmt"
 	"math/rand"
+	"os"
+	"os/exec"
+	"path/filepath"
+	"strconv"
+	"strings"
 	"sync"
+	"time"
 
 	"qeepverif/internal/sym"
 	"qeepverif/internal/term"
@@ -118,4 +124,112 @@ func (c *Ctx) runSymCase(cs *sym.Case, idx, nAssign int) {
 // ReplaySymWitness re-executes a recorded witness (bin/check --replay).
 func ReplaySymWitness(w *SymWitness) sym.Result {
 	return sym.Run(w.Case, w.Assign)
+}
+
+// SymBPSubprocess is the body of "qv symbp <files...>": every case with a root is executed once (assignment 0,
+// plain run) and back-propagated. With QEEP_VERIF_TRACE set the library's own file sink records every one of them.
+func SymBPSubprocess(files []string) int {
+	n := 0
+	err := ReadLines(files, func(line []byte) error {
+		var cs sym.Case
+		if err := json.Unmarshal(line, &cs); err != nil {
+			return err
+		}
+		if cs.Root == 0 || !cs.Ok || cs.Tmpl() {
+			return nil
+		}
+		env := sym.Assign(&cs, rand.New(rand.NewSource(int64(n)+1)), 0)
+		sym.ExecBP(&cs, env) // failures are the business of the replay, not of the harvest
+		n++
+		return nil
+	})
+	if err != nil {
+		fmt.Println("SYMBP-ERROR", err)
+		return 2
+	}
+	fmt.Println("SYMBP-DONE", n)
+	return 0
+}
+
+// HarvestSymBP has a subprocess perform the back-propagation of every generated case with the library's trace-file
+// sink on, and TLC validate each of them against the back-propagation protocol of the machine (Trace_BPStruct.tla):
+// every backward edge applied exactly once, no edge before its consumer's gradient is complete, skipped exactly when
+// the target is untracked.
+func (c *Ctx) HarvestSymBP(files []string) error {
+	self, err := os.Executable()
+	if err != nil {
+		return Brokenf("%v", err)
+	}
+	record := func(tag string) (string, int, int, error) {
+		dir := filepath.Join(c.Work, "symbp-"+tag)
+		os.MkdirAll(dir, 0o755)
+		cmd := exec.Command(self, append([]string{"symbp"}, files...)...)
+		cmd.Env = append(os.Environ(), "QEEP_VERIF_TRACE="+dir)
+		out, err := cmd.CombinedOutput()
+		if err != nil || !strings.Contains(string(out), "SYMBP-DONE") {
+			return "", 0, 0, Brokenf("trace-harvesting subprocess failed: %v\n%s", err, Tail(string(out), 10))
+		}
+		fs, _ := filepath.Glob(filepath.Join(dir, "*.ndjson"))
+		if len(fs) == 0 {
+			return "", 0, 0, nil
+		}
+		b, _ := os.ReadFile(fs[0])
+		return fs[0], strings.Count(string(b), "\n"), strings.Count(string(b), "\"ev\":\"begin\""), nil
+	}
+	validate := func(file, tag string) (int, error) {
+		res, err := c.TLC(TLCOpts{Module: "Trace_BPStruct", Config: "Trace_BPStruct.cfg", Workers: 1, HeapMB: 6000, Timeout: 20 * time.Minute, Env: []string{"QV_TRACE=" + file}, Tag: tag})
+		if err != nil {
+			return 0, err
+		}
+		if m := reRejected.FindStringSubmatch(res.Out); m != nil {
+			n, _ := strconv.Atoi(m[1])
+			return n, nil
+		}
+		if res.ExitCode != 0 || strings.Contains(res.Out, "Error:") {
+			return 0, Brokenf("TLC structural trace validation failed unexpectedly:\n%s", Tail(res.Out, 30))
+		}
+		return -1, nil
+	}
+	file, events, bps, err := record("a")
+	if err != nil {
+		return err
+	}
+	if bps == 0 {
+		return nil
+	}
+	c.Logf("TLC validating the structure of %d recorded back-propagations (%d events)", bps, events)
+	at, err := validate(file, "symbp-a")
+	if err != nil {
+		return err
+	}
+	if at >= 0 {
+		file2, _, _, err := record("b")
+		if err != nil {
+			return err
+		}
+		at2, err := validate(file2, "symbp-b")
+		if err != nil {
+			return err
+		}
+		if at2 >= 0 {
+			b, _ := os.ReadFile(file2)
+			lines := strings.Split(string(b), "\n")
+			ev, begin := "", ""
+			if at2-1 < len(lines) {
+				ev = lines[at2-1]
+			}
+			for i := at2 - 1; i >= 0 && i < len(lines); i-- {
+				if strings.Contains(lines[i], "\"ev\":\"begin\"") {
+					begin = lines[i]
+					break
+				}
+			}
+			c.Violate(fmt.Sprintf("a recorded back-propagation is not a behaviour of the specification (an edge applied twice, before its consumer was complete, or missing): event %d %s", at2, ev),
+				map[string]any{"symbp": true, "event_index": at2, "event": ev, "graph": begin})
+		}
+		return nil
+	}
+	c.Traces += bps
+	c.AddExtra("recorded_backpropagations_validated", fmt.Sprintf("%d back-propagations (%d events) of the generated cases recorded through the library's trace sink and accepted by TLC (Trace_BPStruct)", bps, events))
+	return nil
 }
